@@ -19,6 +19,10 @@ import (
 
 func main() { hx.Main("C20", runC20) }
 
+// below this radius geo.RectFromCenter collapses to the centre point (cos(r/R) rounds to 1):
+// hypothesis Hr is only claimed from here upwards (open finding C20-tiny-radius)
+const rminMeters = 0.3
+
 type pos struct{ lat, lon float64 }
 
 type roamFence struct {
@@ -65,6 +69,7 @@ func bits(d float64) string { return strconv.FormatUint(math.Float64bits(d), 10)
 
 type expectation struct {
 	oracle       []entry // sorted by (kind, id): direct oracle, property text
+	oracleRect   []entry // the same, but seeing only what lies inside the search rectangles
 	model        []entry // sequence predicted by the extracted model
 	modelRaw     string
 	boundary     bool
@@ -102,10 +107,10 @@ func expect(drv *model.Driver, f roamFence, mover string, old *pos, np pos, col 
 			e.boundary = true
 		}
 		if id != mover {
-			if dNew <= f.meters && !inNew {
+			if f.meters >= rminMeters && dNew <= f.meters && !inNew {
 				e.hrViolations = append(e.hrViolations, fmt.Sprintf("%s: %.6f m from the new position (radius %g) but outside RectFromCenter", id, dNew, f.meters))
 			}
-			if old != nil && dOld <= f.meters && !inOld {
+			if f.meters >= rminMeters && old != nil && dOld <= f.meters && !inOld {
 				e.hrViolations = append(e.hrViolations, fmt.Sprintf("%s: %.6f m from the old position (radius %g) but outside RectFromCenter", id, dOld, f.meters))
 			}
 			if inNew && dNew > f.meters {
@@ -125,8 +130,16 @@ func expect(drv *model.Driver, f roamFence, mover string, old *pos, np pos, col 
 		if wasNear && !isNear {
 			e.oracle = append(e.oracle, entry{"faraway", id, metersText(dRev)})
 		}
+		wasNearR, isNearR := wasNear && inOld, isNear && inNew
+		if isNearR && !(f.nodwell && wasNearR) {
+			e.oracleRect = append(e.oracleRect, entry{"nearby", id, metersText(dNew)})
+		}
+		if wasNearR && !isNearR {
+			e.oracleRect = append(e.oracleRect, entry{"faraway", id, metersText(dRev)})
+		}
 	}
 	sortEntries(e.oracle)
+	sortEntries(e.oracleRect)
 	e.modelRaw = drv.Ask(req...)
 	if strings.HasPrefix(e.modelRaw, "ok") {
 		for _, t := range strings.Fields(e.modelRaw)[1:] {
@@ -236,7 +249,7 @@ type round struct {
 func runC20(r *hx.Result, cfg hx.Config) {
 	r.Rule = "black-box: ROAM fences (channel, webhook, live connection) over a small fleet of points; every SET is evaluated for every fence: observed nearby/faraway ids and metres vs (a) the neighbour sets computed client-side from the known positions with the server's own point distance (direct oracle, cases within 1e-9 relative of the radius skipped), (b) the sequence predicted by the extracted Coq model fed with the same distances and rectangle tests. New positions are forced into the corners of the search rectangle (inside the rectangle, outside the circle), onto the rim, inside, outside. non-trivial = distinct (fence configuration, neighbour outcome) with at least one reported neighbour or at least one neighbour inside the rectangle but outside the circle."
 	r.Assumptions = []string{
-		"Hr: an object within the radius lies inside geo.RectFromCenter(centre, radius) (checked on every sample; radii >= 1 m)",
+		"Hr: an object within the radius lies inside geo.RectFromCenter(centre, radius), for radii >= 0.3 m (checked on every sample)",
 		"collection.Intersects visits every stored point inside the search rectangle (C02's concern)",
 		"sort.Slice sorts; ids are unique within a collection",
 		"objects are Points (centre = the point; Distance = geodesic distance between the points)",
@@ -277,6 +290,8 @@ func runC20(r *hx.Result, cfg hx.Config) {
 				{"car2", pos{33.414750027566235, -111.91781044006346}, "corpus"}, {"car1", pos{33.414750027566235, -111.9111156463623}, "corpus"},
 				{"car2", pos{33.414750027566235, -111.92416191101074}, "corpus"}}},
 	}
+	corpus = append(corpus, round{key: "tiny", roamKey: "tiny", fences: []roamFence{{name: "tinychan", kind: "chan", pattern: "*", meters: 0.2}},
+		script: []step{{"a", pos{10, 10}, "corpus"}, {"b", pos{10.0000009, 10}, "corpus"}, {"b", pos{10, 10}, "corpus"}, {"a", pos{10.00001, 10}, "corpus"}}})
 	for i := range corpus {
 		runRound(r, cfg, rng, drv, s, wh, &corpus[i], fmt.Sprintf("corpus%d", i))
 	}
@@ -509,6 +524,7 @@ func runRound(r *hx.Result, cfg hx.Config, rng *rand.Rand, drv *model.Driver, s 
 	c.MustDo("PDELCHAN", rd.key+"*")
 	c.MustDo("PDELCHAN", "f8*")
 	c.MustDo("PDELCHAN", "cars*")
+	c.MustDo("PDELCHAN", "tiny*")
 	c.MustDo("PDELHOOK", rd.key+"*")
 }
 
@@ -579,6 +595,10 @@ func checkStep(r *hx.Result, rd *round, f roamFence, st step, old *pos, e expect
 					if surplusOutside > 0 && other == 0 && missing == 0 {
 						sig = "roam-nearby-outside-radius"
 					}
+				}
+				if f.meters < rminMeters && entStr(so) == entStr(e.oracleRect) {
+					// fully explained by the collapsed search rectangle
+					sig = "roam-tiny-radius"
 				}
 				r.Fail(hx.Failure{Kind: "oracle", Signature: sig,
 					What: fmt.Sprintf("ROAM fence reported %s ids {%s}; the objects matching the pattern within %s m (by the server's own point distance) give {%s}; distances to the new position: %s",
